@@ -51,4 +51,14 @@ def frameTimeUs (tfN tfD rrN rrD bpm : Int) : Int :=
 /-- bytes cleared in `buf32` by `libxmp_mixer_prepare` -/
 def buf32Bytes (ticks : Int) (mono : Bool) : Int := if mono then ticks * sizeofInt32 else ticks * sizeofInt32 * 2
 
+/-- `xmp_set_tempo_factor(val)` in a playing context (src/control.c), `val = vN/vD` with `vD > 0`
+(a NaN is not a fraction; the C refuses it like a non-positive value): `none` = refused with −1,
+`m->time_factor` untouched; `some (n, d)` = accepted, `m->time_factor = n/d = 10·val`.  The C asks
+`libxmp_mixer_get_ticksize` for the tick size at the CURRENT rate and tempo and refuses when that
+is invalid or above `XMP_MAX_FRAMESIZE / 4` frames. -/
+def setTempoFactor (freq rrN rrD bpm vN vD : Int) : Option (Int × Int) :=
+  if vN ≤ 0 then none else
+  let t := getTicksize freq (vN * 10) vD rrN rrD bpm
+  if t < 0 ∨ t > capTicks then none else some (vN * 10, vD)
+
 end Xmp.Tick
